@@ -119,6 +119,49 @@ theorem after_block_as_never_entered (s : HState) (w : Bool) (hclean : s.cs.spr 
         simp [hclean]
   rw [this]
 
+theorem callInner_spr (cfg : CallCfg) (st : ClientState) (e : Entry) (arr : List Frame) :
+    (callInner cfg st e arr).st.spr = st.spr := by
+  unfold callInner
+  cases hm : e.makeRequest cfg.std with
+  | error err => simp
+  | ok req =>
+    simp only
+    cases ho : (sendRequest cfg.send st req none arr).outcome with
+    | none => simp
+    | raised a b c => simp
+    | resp r =>
+      simp only
+      cases hp : e.post cfg.std r.data with
+      | error err => simp
+      | ok t =>
+        cases t with
+        | none => simp
+        | some t => cases hu : cfg.useServerTiming <;> simp [hu]
+
+/-- a later block entered without calling the context manager (`with client.suppress_positive_response:`) does not
+    inherit `wait_nrc` from an earlier block: after any exit the flag is off again -/
+theorem bare_block_after_exit (s : HState) (between : List HOp)
+    (hb : ∀ op ∈ between, ∀ w, op ≠ .enterSpr w) :
+    let s1 := (hstep s .exitSpr).1
+    (hstep (hrun s1 between).1 .enterSprBare).1.cs.spr = ⟨true, false⟩ := by
+  intro s1
+  have inv : ∀ (ops : List HOp) (t : HState), t.cs.spr.waitNrc = false → (∀ op ∈ ops, ∀ w, op ≠ .enterSpr w) →
+      (hrun t ops).1.cs.spr.waitNrc = false := by
+    intro ops
+    induction ops with
+    | nil => intro t h _; simpa [hrun]
+    | cons op rest ih =>
+      intro t h hne
+      simp only [hrun]
+      apply ih
+      · cases op <;> simp [hstep, h]
+        case call e arr => rw [callInner_spr]; exact h
+        case enterSpr w => exact absurd rfl (hne _ (by simp) w)
+      · intro o ho w; exact hne o (by simp [ho]) w
+  have h1 : s1.cs.spr.waitNrc = false := by simp [s1, hstep]
+  have := inv between s1 h1 hb
+  simp [hstep, this]
+
 /-! ### non-vacuity -/
 example : (sendRequest ⟨none, 100, 500, false⟩ { spr := ⟨true, false⟩ } (mkReq "ECUReset" (some 1) none) none []).log
     = [.flush, .send [0x11, 0x81]] := by decide
